@@ -108,8 +108,14 @@ func (c *Ctx) newBR(roots []*ssa.Function, cut func(f *ssa.Function, in ssa.Inst
 		br.unprot.addRoot(r)
 		br.full.addRoot(r)
 	}
-	br.unprot.run()
 	br.full.run()
+	// values made behind the barrier (a selector built by a builtin, a record, a closure) are handed
+	// back to unprotected code, which calls their methods through interfaces: every type that is made
+	// into an interface anywhere in the reachable program resolves interface calls outside the barrier too
+	for _, T := range br.full.liveList {
+		br.unprot.addLive(T, false)
+	}
+	br.unprot.run()
 	for _, f := range c.zygoFuncs() {
 		eachInstr(f, func(b *ssa.BasicBlock, i int, in ssa.Instruction) {
 			if c.isUserFunCall(in) {
